@@ -42,7 +42,7 @@ SPEC = {
             "C13_barrier", "C13_barrier_hypothesis_satisfiable",
             "C13_builtin_discipline_refuted", "C13_forward_refuted", "C13_builtin_discipline",
             "C13_barrier_builtin", "C13_paths",
-            "C13_once", "C13_status", "C13_status_lag_orig_refuted", "C13_status_timeout", "C13_deadline",
+            "C13_once", "C13_status", "C13_status_lag_orig_refuted", "C13_status_lag_plain_and_explicit", "C13_status_timeout", "C13_deadline",
             "C13_remark_starts_that_panic_on_shutdown",
             "C13_validate_sound", "C13_validate_predict", "C13_predict_is_run_model",
         ],
@@ -65,8 +65,10 @@ SPEC = {
             "timeout-1/timeout/timeout+1/+999/+1000/+1500 ms, or never; timeouts 0..60 s and run_internet without "
             "timeout), 40% mixes of built-in protocols on one network (Udp Tcp Ipv4 Arp Pci DnsClient SendMessage "
             "Capture Forward OnReceive BasicServer ThroughputTester DhcpServer PingPong ArpRouter; all four "
-            "Arp x MAC-in-table combinations) with slow harness applications that hold the barrier shut, 12% "
-            "SocketAPI server/client pairs (pre-barrier new_socket().await), 8% 5..40 concurrent requests. "
+            "Arp x MAC-in-table combinations) with slow harness applications that hold the barrier shut, 10% "
+            "SocketAPI server/client pairs (pre-barrier new_socket().await), 12% bursts of 5..40 requests made by one "
+            "application without yielding or by as many applications, plain shut_down() and shut_down_with_status(k) "
+            "mixed (first plain then explicit, first explicit then plain, plain last, random, all explicit). "
             "distinct = distinct case line; non-trivial = the child returned or crashed (not HANG)",
     "trusted_base": [
         "Coq 8.16.1 kernel (coqc; vm_compute only over the finite 32-row table and in closed witness runs)",
